@@ -13,7 +13,7 @@ fn fmt_stub2(_a: core::fmt::Arguments<'_>) -> String {
 // @harness c10_read_beyond_backing_eof
 // @props C10 C01
 // @tier quick
-// @cost 60
+// @cost 20
 // @timeout 900
 // @needs RB
 // @desc a backing device asked for data at or beyond its own end (top image larger than its backing image): every byte of the caller's buffer that read_at reports as read but that lies beyond the backing image's virtual size is ZERO afterwards -- for reads starting beyond the end (nothing is requested from the file) and for the tail of reads crossing the end; checked on the read prologue over a real 1 KiB buffer with arbitrary previous content
